@@ -3,7 +3,7 @@
 import json
 import sys
 
-sys.path.insert(0, '/repo') if '/repo' not in sys.path else None
+sys.path.insert(0, __import__('os').environ.get('PYVC_REPO', '/repo'))
 from playback.tape_recorder import TapeRecorder, RecordingParameters            # noqa: E402
 from playback.tape_cassettes.in_memory.in_memory_tape_cassette import InMemoryTapeCassette   # noqa: E402
 from playback.interception.input_interception import InputInterceptionDataHandler    # noqa: E402
